@@ -298,11 +298,17 @@ class Cascade:
                 if stage.on_error:
                     try:
                         recovery_signal = stage.on_error(e)
+                        # A recovered stage is a completed stage: its factor counts too
+                        amplification = stage.amplification
+                        cumulative_amplification = min(
+                            cumulative_amplification * amplification, self.max_amplification
+                        )
                         stage_result = StageResult(
                             stage_name=stage.name,
                             status=StageStatus.COMPLETED,
                             input_signal=current_signal,
                             output_signal=recovery_signal,
+                            amplification_factor=amplification,
                             error=f"Recovered: {e}",
                             processing_time_ms=(time.time() - stage_start) * 1000
                         )
